@@ -426,13 +426,13 @@ func (r *report) finish() int {
 	for _, l := range outLines {
 		fmt.Println(l)
 	}
+	for _, l := range inconclusive {
+		fmt.Println("INCONCLUSIVE", l)
+	}
 	if violations > 0 {
 		return 1
 	}
 	if len(inconclusive) > 0 {
-		for _, l := range inconclusive {
-			fmt.Println("INCONCLUSIVE", l)
-		}
 		return 2
 	}
 	fmt.Printf("OK property=%s held on everything explored\n", r.Prop)
